@@ -35,7 +35,7 @@ var Prop = &engine.Prop{
 	Assumptions: []string{
 		"a quiescent goroutine snapshot of a timer-free execution is a fixed point (the fake connection only records deadlines; timeouts are explicit steps)",
 		"a peer that never reads makes Write block until a (virtual) write timeout, as the 8 s write deadline does in production",
-		"UpdateHandler after Start and panics inside OnExit are not judged",
+		"UpdateHandler is only called on sessions that have ended (where it must not lead to another exit callback); UpdateHandler on a running session and panics inside OnExit are not judged",
 		"the loop-back server kind runs under real time; its watchdog expiry is inconclusive",
 	},
 	ShardsQuick: 8, ShardsThorough: 16,
@@ -639,6 +639,13 @@ func faultCase(k *engine.Case) {
 	nsteps := 2 + r.Intn(10)
 	ok := check("start")
 	for s := 0; s < nsteps && ok; s++ {
+		if y := ss[r.Intn(len(ss))]; y.ended && r.Intn(4) == 0 && h.exitCount(y.s) >= 1 {
+			// the session is over (its exit callback has run, observed under the handler's lock):
+			// swapping the handler now must not produce another exit callback
+			y.s.UpdateHandler(h)
+			k.Logf("step %d: (s%d has ended: UpdateHandler called on it)", s, y.id)
+			k.Count("event_update_handler_after_exit", 1)
+		}
 		if r.Intn(100) < 75 {
 			x := ss[r.Intn(len(ss))]
 			a := plan(x, pickEvent())
